@@ -9,6 +9,7 @@ import (
 	"fmt"
 	"math"
 	"sort"
+	"strings"
 	"testing"
 
 	"github.com/canopy-network/canopy/lib"
@@ -52,7 +53,7 @@ type world7 struct {
 }
 
 func (x *world7) fatalf(format string, a ...any) {
-	x.t.Fatalf("%s\nhistory: %s", fmt.Sprintf(format, a...), x.cs.Descriptor())
+	x.t.Fatalf("%s", clipLines7b(fmt.Sprintf("%s\nhistory: %s", fmt.Sprintf(format, a...), x.cs.Descriptor()), 16000))
 }
 
 func TestC07bBlockAtomicity(t *testing.T) {
@@ -506,4 +507,15 @@ func poolOf(n *nodesim.Node) string {
 	}
 	sort.Strings(hs)
 	return fmt.Sprintf("%d%v", len(hs), hs)
+}
+
+// clipLines7b shortens every line of a failure message (rapid fail files must stay below 64 KiB per line to be loadable)
+func clipLines7b(s string, max int) string {
+	lines := strings.Split(s, "\n")
+	for i, l := range lines {
+		if len(l) > max {
+			lines[i] = l[:max] + fmt.Sprintf("...(+%d bytes)", len(l)-max)
+		}
+	}
+	return strings.Join(lines, "\n")
 }
